@@ -42,9 +42,17 @@ def gen(ctx, n):
             stride = 1 if pad == 'same' else r.randint(1, 3)
             add('conv%d' % nd, {'cin': cin, 'cout': cout, 'k': ksz, 'stride': stride, 'pad': pad, 'dil': dil, 'groups': groups, 'bias': r.random() < 0.7,
                                'norm': r.choice(['gn', 'in', 'none']), 'gn_groups': r.choice([1, cout]), 'size': size, 'o': 2})
+            # non-zero padding modes: the layer pads its own input (reflect needs pad < size)
+            pm = r.choice(['circular', 'reflect', 'replicate'])
+            ipad = r.choice([1, 2, 'same']) if (isinstance(ksz, int) and (ksz - 1) * dil >= 1) else 1
+            if pm == 'reflect' and (ipad == 'same' or ipad >= size):
+                ipad = 1 if size > 1 else 0
+            add('conv%d' % nd, {'cin': cin, 'cout': cout, 'k': ksz, 'stride': 1 if ipad == 'same' else stride, 'pad': ipad, 'dil': dil, 'groups': groups, 'bias': r.random() < 0.7,
+                               'norm': 'none', 'gn_groups': 1, 'size': size + 1, 'o': 2, 'pmode': pm})
         elif k == 5:
             V = r.randint(3, 7)
             add('emb', {'V': V, 'd': r.randint(1, 3), 'pad': r.choice([None, 0, V - 1, 1]), 'o': 2, 'n': r.randint(2, 4)})
+            add('emb', {'V': V, 'd': r.randint(1, 3), 'pad': r.choice([None, 0]), 'o': 2, 'n': r.randint(2, 4), 'freq': r.random() < 0.6, 'ln_bias': r.random() < 0.5})
         elif k == 6:
             add('bag', {'V': r.randint(3, 6), 'd': r.randint(1, 3), 'o': 2, 'n': r.randint(2, 4), 'mode': r.choice(['sum', 'mean']), 'dup': r.random() < 0.6}, mode='hooks')
             Vb = r.randint(3, 6)
@@ -97,8 +105,16 @@ def sampler_correspondence(ctx, n):
     for _ in range(n):
         K_, dil = r.randint(1, 3), r.randint(1, 2)
         pad = r.choice([0, 1, 2, 'same', 'valid'])
+        Lc = (K_ - 1) * dil + 1 + r.randint(0, 4)
+        pm = r.choice(['zeros', 'zeros', 'circular', 'replicate', 'reflect'])
+        if pm != 'zeros' and (pad == 'valid' or pad == 0):
+            pad = 1
+        if pm == 'reflect' and (pad == 'same' or pad >= Lc):
+            pm = 'replicate'
+        if pm == 'circular' and pad != 'same' and pad > Lc:
+            pad = 1
         conv.append({'seed': r.randint(0, 10**6), 'G': r.choice([1, 1, 2]), 'cg': r.randint(1, 2), 'og': r.randint(1, 2), 'K': K_, 'stride': 1 if pad == 'same' else r.randint(1, 3),
-                     'dil': dil, 'pad': pad, 'L': (K_ - 1) * dil + 1 + r.randint(0, 4)})
+                     'dil': dil, 'pad': pad, 'L': Lc, 'pmode': pm})
     bag = []
     for _ in range(n):
         V = r.randint(2, 6)
